@@ -169,7 +169,7 @@ func TestVerifC14Handler(t *testing.T) {
 			if err != nil {
 				e = strings.SplitN(err.Error(), " (", 2)[0]
 			}
-			lines = append(lines, fmt.Sprintf("identical-%s err=%s calls=%d", what, e, len(icalls)))
+			lines = append(lines, fmt.Sprintf("identical-%s err=%s calls=%d privateJobs=%s", what, e, len(icalls), in.jobs("private")))
 			mu.Unlock()
 		}
 		_ = in.state.Add(ctx, root, []byte{0, 0, 0, 1})
